@@ -277,9 +277,11 @@ var quietLog = func() logrus.FieldLogger {
 // QuietLog is a logger that prints nothing.
 func QuietLog() logrus.FieldLogger { return quietLog }
 
-// stepper is a ReplicasManager whose Replicas() lets exactly one cycle run.
+// stepper is a ReplicasManager whose Replicas() lets one cycle per scenario run:
+// call k (1-based) returns the managers of scenario k; call len+1 blocks until released.
 type stepper struct {
-	managers []shard.Manager
+	perCycle [][]shard.Manager
+	before   func(k int) // called before cycle k+1 starts (k = index of the scenario)
 	calls    chan int
 	release  chan struct{}
 	n        int
@@ -288,8 +290,11 @@ type stepper struct {
 func (s *stepper) Replicas() ([]shard.Manager, error) {
 	s.n++
 	s.calls <- s.n
-	if s.n == 1 {
-		return s.managers, nil
+	if s.n <= len(s.perCycle) {
+		if s.before != nil {
+			s.before(s.n - 1)
+		}
+		return s.perCycle[s.n-1], nil
 	}
 	<-s.release
 	return nil, fmt.Errorf("stopped")
@@ -364,45 +369,74 @@ func ExploreFn(sc *Scenario) func(uint64) *target.ScrapeStatus {
 }
 
 // Exec runs one cycle of the real coordinator on the scenario.
-func Exec(sc *Scenario) *Transcript {
-	tr := &Transcript{Replicas: make([]ReplicaLog, len(sc.Replicas))}
-	st := &stepper{calls: make(chan int, 4), release: make(chan struct{})}
-	var mans []*fakeManager
-	for ri := range sc.Replicas {
-		rs := &sc.Replicas[ri]
-		fm := &fakeManager{spec: rs, log: &tr.Replicas[ri]}
-		for si := range rs.Shards {
-			sp := &rs.Shards[si]
-			h := CoordHash
-			if !sp.HashEqual {
-				h = OldHash
-			}
-			fm.shards = append(fm.shards, &fakeShard{spec: sp, hash: h})
-		}
-		mans = append(mans, fm)
-		st.managers = append(st.managers, fm)
-	}
+func Exec(sc *Scenario) *Transcript { return ExecSeq([]*Scenario{sc})[0] }
 
-	active := Active(sc)
-	cfg := &prom.ConfigInfo{
-		RawContent:  []byte(CoordRaw),
-		ConfigHash:  CoordHash,
-		ExtraConfig: &prom.ExtraConfig{StopScrapeReason: sc.Stop},
+// ExecSeq runs len(scs) consecutive cycles on ONE coordinator instance; cycle k sees the shards,
+// discovered targets and explorer answers of scenario k (options are those of the first scenario).
+// The coordinator is documented to be stateless apart from its published view, so every cycle is
+// judged on its own inputs; state that leaks from one cycle into the next becomes visible.
+func ExecSeq(scs []*Scenario) []*Transcript {
+	trs := make([]*Transcript, len(scs))
+	st := &stepper{calls: make(chan int, 8), release: make(chan struct{})}
+	allMans := make([][]*fakeManager, len(scs))
+	for k, sc := range scs {
+		tr := &Transcript{Replicas: make([]ReplicaLog, len(sc.Replicas))}
+		trs[k] = tr
+		var ms []shard.Manager
+		for ri := range sc.Replicas {
+			rs := &sc.Replicas[ri]
+			fm := &fakeManager{spec: rs, log: &tr.Replicas[ri]}
+			for si := range rs.Shards {
+				sp := &rs.Shards[si]
+				h := CoordHash
+				if !sp.HashEqual {
+					h = OldHash
+				}
+				fm.shards = append(fm.shards, &fakeShard{spec: sp, hash: h})
+			}
+			allMans[k] = append(allMans[k], fm)
+			ms = append(ms, fm)
+		}
+		st.perCycle = append(st.perCycle, ms)
 	}
+	sc0 := scs[0]
+	var cur struct {
+		sync.Mutex
+		active  map[uint64]*discovery.SDTargets
+		explore func(uint64) *target.ScrapeStatus
+		cfg     *prom.ConfigInfo
+	}
+	// the explorer is one long-lived object: its status objects persist across cycles for targets
+	// whose answer does not change
+	explorers := make([]func(uint64) *target.ScrapeStatus, len(scs))
+	for k := range scs {
+		explorers[k] = ExploreFn(scs[k])
+	}
+	setCycle := func(k int) {
+		cur.Lock()
+		cur.active = Active(scs[k])
+		cur.explore = explorers[k]
+		cur.cfg = &prom.ConfigInfo{RawContent: []byte(CoordRaw), ConfigHash: CoordHash, ExtraConfig: &prom.ExtraConfig{StopScrapeReason: scs[k].Stop}}
+		cur.Unlock()
+	}
+	setCycle(0)
+	st.before = setCycle
 	opt := &coordinator.Option{
-		MaxHeadSeries:    sc.Opt.MaxHead,
-		MaxProcessSeries: sc.Opt.MaxProc,
-		MaxShard:         sc.Opt.Max,
-		MinShard:         sc.Opt.Min,
+		MaxHeadSeries:    sc0.Opt.MaxHead,
+		MaxProcessSeries: sc0.Opt.MaxProc,
+		MaxShard:         sc0.Opt.Max,
+		MinShard:         sc0.Opt.Min,
 		Period:           0,
-		DisableAlleviate: sc.Opt.DisableAlleviate,
+		DisableAlleviate: sc0.Opt.DisableAlleviate,
 	}
-	if sc.Opt.IdleOn {
+	if sc0.Opt.IdleOn {
 		opt.MaxIdleTime = time.Hour
 	}
-	rand.Seed(sc.RandSeed)
-	c := coordinator.NewCoordinator(opt, st, func() *prom.ConfigInfo { return cfg },
-		ExploreFn(sc), func() map[uint64]*discovery.SDTargets { return active },
+	rand.Seed(sc0.RandSeed)
+	c := coordinator.NewCoordinator(opt, st,
+		func() *prom.ConfigInfo { cur.Lock(); defer cur.Unlock(); return cur.cfg },
+		func(h uint64) *target.ScrapeStatus { cur.Lock(); f := cur.explore; cur.Unlock(); return f(h) },
+		func() map[uint64]*discovery.SDTargets { cur.Lock(); defer cur.Unlock(); return cur.active },
 		prometheus.NewRegistry(), quietLog)
 
 	ctx, cancel := context.WithCancel(context.Background())
@@ -419,23 +453,39 @@ func Exec(sc *Scenario) *Transcript {
 
 	timeout := time.After(20 * time.Second)
 	state := 0
+	reached := 0
 loop:
 	for {
 		select {
 		case n := <-st.calls:
-			if n >= 2 {
+			reached = n
+			if n > len(scs) {
 				state = 2
 				break loop
 			}
 		case p := <-done:
-			tr.Panic = p
+			k := reached - 1
+			if k < 0 {
+				k = 0
+			}
+			if k >= len(trs) {
+				k = len(trs) - 1
+			}
+			trs[k].Panic = p
 			if p == "" {
-				tr.Panic = "Run returned unexpectedly"
+				trs[k].Panic = "Run returned unexpectedly"
 			}
 			state = 3
 			break loop
 		case <-timeout:
-			tr.Hung = true
+			k := reached - 1
+			if k < 0 {
+				k = 0
+			}
+			if k >= len(trs) {
+				k = len(trs) - 1
+			}
+			trs[k].Hung = true
 			break loop
 		}
 	}
@@ -444,13 +494,15 @@ loop:
 		close(st.release)
 		<-done
 	}
-	for ri, fm := range mans {
-		tr.Replicas[ri].Shards = make([][]Req, len(fm.shards))
-		for si, f := range fm.shards {
-			f.mu.Lock()
-			tr.Replicas[ri].Shards[si] = append([]Req(nil), f.log...)
-			f.mu.Unlock()
+	for k := range scs {
+		for ri, fm := range allMans[k] {
+			trs[k].Replicas[ri].Shards = make([][]Req, len(fm.shards))
+			for si, f := range fm.shards {
+				f.mu.Lock()
+				trs[k].Replicas[ri].Shards[si] = append([]Req(nil), f.log...)
+				f.mu.Unlock()
+			}
 		}
 	}
-	return tr
+	return trs
 }
